@@ -26,7 +26,7 @@ CHECKS = {
    note=SEQ_NOTE),
  "C06": dict(engine="seq", cat="model_checking", ref="§4 C06, §2.3",
    technique="explicit-state BFS over add/replace/append/prepend histories on the real code against the reference model",
-   text="All histories up to the bound of add/replace/append/prepend with empty, binary and limit-reaching operands on absent/present/expired/deleted/flushed keys; oracle: status per the property, old+suffix / prefix+old, flags kept, rejected command leaves the entry bit-identical.",
+   text="All histories up to the bound of add/replace/append/prepend with empty, binary and limit-reaching operands on absent/present/expired/deleted/flushed keys; oracle: status per the property, old+suffix / prefix+old, flags kept, rejected command leaves the entry bit-identical. Concurrent part (E1): replace / add / append / prepend against a concurrent set or get of the same key, every schedule up to the bound, linearizability (only pairs that are linearizable on the unchanged tree; two read-modify-write commands racing are C04's recorded findings).",
    note=SEQ_NOTE),
  "C07": dict(engine="seq", cat="model_checking", ref="§4 C07, §2.3",
    technique="explicit-state BFS over counter histories on the real code with a u64 arithmetic oracle",
@@ -57,11 +57,11 @@ CHECKS.update({
    note=SEQ_NOTE + " " + SCHED_NOTE),
  "C15": dict(engine="seq+sched", cat="model_checking", ref="§4 C15, §2.3",
    technique="explicit-state BFS over histories on the real code under RandomPolicy, accounting counter (hook) compared with the dump after every command",
-   text="All histories up to the bound of every command kind on 3 keys under a generous limit: (accounted usage - sum of stored record sizes) must not change in any command, and no live item may disappear while the stored records fit under the limit (behavioural form, limit 130). The unchanged tree drifts at 5 call sites; each (unaccounted record, command) is a listed known finding; drift of any other amount outside the eviction loop is not listed. Second part (E1): programs whose commands account exactly when run alone (deletes, stores under fresh keys, reads): the drift must be unchanged across the concurrent phase under every schedule. Concurrent families also start from an expired, uncollected item met by two or three clients; the drift clause is signed (over-count: the recorded lazy-expiry drift; under-count: never listed).",
+   text="All histories up to the bound of every command kind on 3 keys under a generous limit: (accounted usage - sum of stored record sizes) must not change in any command, and no live item may disappear while the stored records fit under the limit (behavioural form, limit 130). The unchanged tree drifts at 5 call sites; each (unaccounted record, command) is a listed known finding; drift of any other amount outside the eviction loop is not listed. Second part (E1): programs whose commands account exactly when run alone (deletes, stores under fresh keys, reads): the drift must be unchanged across the concurrent phase under every schedule. Concurrent families also start from an expired, uncollected item met by two or three clients; the drift clause is signed (over-count: the recorded lazy-expiry drift; under-count: never listed). A third sequential configuration executes a small alphabet on two OS threads of the runner (one command at a time, histories enumerated without state merging): thread-affine accounting; a live item lost while even the counter is below the limit is never a recorded finding.",
    note=SEQ_NOTE),
  "C16": dict(engine="sched", cat="model_checking", ref="§4 C16, §2.2",
    technique="stateless DFS over all thread schedules of the real store under a controlled scheduler with deadlock (no enabled task) and step-horizon (livelock) detection",
-   text="Programs of 1-3 clients over {get,set,cas-set,delete,add,append,incr,flush,other-key ops, evicting stores} with keys on the same and on different shards (2 shards), policies none and random with a tight limit (eviction sweeps, all victims), initial states absent/present/expired: every schedule up to the bound must run to completion; a blocked system or >20000 steps is a violation.",
+   text="Programs of 1-3 clients over {get,set,cas-set,delete,add,append,incr,flush,other-key ops, evicting stores} with keys on the same and on different shards (2 shards), policies none and random with a tight limit (eviction sweeps, all victims), initial states absent/present/expired: every schedule up to the bound must run to completion; a blocked system or >20000 steps is a violation. Family refused-then-again: a refused command (stale CAS) followed by the same kind of command on one client and across two.",
    note=SCHED_NOTE),
 })
 
@@ -72,7 +72,7 @@ NET_NOTE = ("Trusted: tokio's paused clock advances only when no task is runnabl
 CHECKS.update({
  "C09": dict(engine="net+decoder", cat="model_checking", ref="§4 C09, §2.4, §2.5",
    technique="exhaustive enumeration of every 1-cut, 2-cut and byte-at-a-time segmentation of every corpus stream, at the real decoder and over real loopback TCP on a paused single-thread runtime",
-   text="Corpus: one frame per opcode 0x00-0x24 plus 20 anomalous-but-accepted frames (unexpected extras/value, wrong extras length, oversized), each followed by noop/set/get (thorough: all ordered pairs). Oracles: every frame is taken from exactly 24+body bytes by a fresh decoder; decoder outcome and socket responses/final store identical for every segmentation; the unsegmented socket result equals the frame-wise expectation or the connection is closed; answered requests in front of every rejected frame reach the client wherever the stream is cut; a fresh connection opened after every stream gets exactly one noop answered (nothing of a stream reaches another connection). Every frame is also sent on its own (nothing behind it that could complete a short read), and every oversized frame between answered requests and a follower.",
+   text="Corpus: one frame per opcode 0x00-0x24 plus 20 anomalous-but-accepted frames (unexpected extras/value, wrong extras length, oversized), each followed by noop/set/get (thorough: all ordered pairs). Oracles: every frame is taken from exactly 24+body bytes by a fresh decoder; decoder outcome and socket responses/final store identical for every segmentation; the unsegmented socket result equals the frame-wise expectation or the connection is closed; answered requests in front of every rejected frame reach the client wherever the stream is cut; a fresh connection opened after every stream gets exactly one noop answered (nothing of a stream reaches another connection). Every frame is also sent on its own (nothing behind it that could complete a short read), and every oversized frame between answered requests and a follower. Pipelines of 24 / 64 / 200 requests in one segment (and cut every 24 / 97 bytes, byte-at-a-time): every loud request answered, the same bytes for every segmentation.",
    note=NET_NOTE),
  "C12": dict(engine="net", cat="model_checking", ref="§4 C12, §2.5",
    technique="exhaustive enumeration of pipelined request streams over all opcodes (depth 2, thorough 3, quit/quitq at every position) on real loopback TCP, validated by the sequential specification",
@@ -80,7 +80,7 @@ CHECKS.update({
    note=NET_NOTE),
  "C13": dict(engine="net", cat="model_checking", ref="§4 C13, §2.5",
    technique="exhaustive grid limit x body length x opcode x pipeline position x bytes-already-buffered x buffer-pregrown on real loopback TCP against an in-process reference",
-   text="Full grid (limits 1 KiB..4 MiB, L in {limit-1,limit,limit+1,2*limit,limit+200000}, every opcode, first/middle/last, B in {0,1,L/2-1,L/2,L/2+1,L-1,L,all+next}, receive buffer pre-grown or not): the oversized request is answered 0x03 with opcode/opaque echoed, the store equals a run without it, every other request is answered as in that run, L <= limit is never refused for size (stores at limit-1/limit; every opcode 0..0x24 with a small body delivered whole, header first, or last byte late); header shapes of the oversized request: 3-byte, 251-byte, 65535-byte key, 21 extras bytes. Two clients inside oversized bodies at once: the one that completes is answered while the other pauses. The key named by the oversized request already holds an item (a refused request changes nothing).",
+   text="Full grid (limits 1 KiB..4 MiB, L in {limit-1,limit,limit+1,2*limit,limit+200000}, every opcode, first/middle/last, B in {0,1,L/2-1,L/2,L/2+1,L-1,L,all+next}, receive buffer pre-grown or not): the oversized request is answered 0x03 with opcode/opaque echoed, the store equals a run without it, every other request is answered as in that run, L <= limit is never refused for size (stores at limit-1/limit; every opcode 0..0x24 with a small body delivered whole, header first, or last byte late); header shapes of the oversized request: 3-byte, 251-byte, 65535-byte key, 21 extras bytes. Two clients inside oversized bodies at once: the one that completes is answered while the other pauses. The key named by the oversized request already holds an item (a refused request changes nothing). Limits of 2 and 4 MiB: items of 1 MiB-100 and 2 MiB grown by a 200-byte append / prepend (loud and quiet) are not refused.",
    note=NET_NOTE),
  "C17": dict(engine="net", cat="fault_enumeration", ref="§4 C17, §2.5",
    technique="exhaustive enumeration of connection-lifecycle sequences (13 ending kinds, limits 1..4, length <= limit+2, two ending orders) against the real accept loop/semaphore on loopback TCP with virtual time",
@@ -99,15 +99,15 @@ CHECKS.update({
    note="Trusted: the harness profile really has overflow-checks on (profile.dev in mc/Cargo.toml); panic capture via a process-wide hook. " + NET_NOTE),
  "C11": dict(engine="seq", cat="model_checking", ref="§4 C11, §2.3",
    technique="explicit-state BFS over histories of every opcode x every outcome on the real code; every encoded response re-parsed by an independent parser",
-   text="Socket part: pipelined getk of 0.07-1 MB items, read only after the server blocked on the full socket: every frame whole and in order. Sequential part: 62-command alphabet (every opcode, loud and quiet, hit/miss/exists/not-found/too-large/non-numeric, 250-byte and binary keys, opaques 0/0xabad1dea/0xffffffff/0x80000001), all histories to the bound: every response frame has magic 0x81, opcode and opaque echoed, data type 0, status in the table, body length = extras+key+value, 4 extras on hits, key only for getk, 8 bytes for counters, text on errors; exactly one frame per loud request. The same rules are applied to every response of the C12 socket runs. Requests carry vbucket ids 0 / 7 / 0xffff by command index (a reserved field: nothing may depend on it). Third part: correlation across connections - every stream <request> <quit|quitq|undefined opcode> <request> leaves bytes unconsumed when the server closes; a fresh connection's noop must then receive exactly its own answer.",
+   text="Socket part: pipelined getk of 0.07-1 MB items, read only after the server blocked on the full socket: every frame whole and in order. Sequential part: 62-command alphabet (every opcode, loud and quiet, hit/miss/exists/not-found/too-large/non-numeric, 250-byte and binary keys, opaques 0/0xabad1dea/0xffffffff/0x80000001), all histories to the bound: every response frame has magic 0x81, opcode and opaque echoed, data type 0, status in the table, body length = extras+key+value, 4 extras on hits, key only for getk, 8 bytes for counters, text on errors; exactly one frame per loud request. The same rules are applied to every response of the C12 socket runs. Requests carry vbucket ids 0 / 7 / 0xffff by command index (a reserved field: nothing may depend on it). Third part: correlation across connections - every stream <request> <quit|quitq|undefined opcode> <request> leaves bytes unconsumed when the server closes; a fresh connection's noop must then receive exactly its own answer. The correlation part also sends <unimplemented or oversized request> <request> (<request>) on one connection: every later request is answered with its own opcode and opaque.",
    note=SEQ_NOTE),
  "C19": dict(engine="seq-pair", cat="model_checking", ref="§4 C19, §2.3",
    technique="explicit-state BFS over pairs of real systems (loud run, toggled run); the loud/quiet toggle is part of the alphabet so every subset of positions is covered; every toggled history up to depth 2 (thorough 3) is also sent as pipelined writes to a real TCP server and compared with the in-process run",
-   text="All histories to the bound x every subset of positions switched to quiet: after every command both stores hold identical items (value, flags, expiry) with isomorphic CAS relations; errors identical apart from the opcode, quiet success and quiet get miss silent, quiet hit carries the same payload. TCP part: each clock-free segment of a toggled history is one write (its requests are pipelined in the server's read buffer); received bytes and final store must equal the in-process run of the same history. A second TCP mode sends the requests one at a time with 45 s of virtual idle time in front of each (below the receive timeout).",
+   text="All histories to the bound x every subset of positions switched to quiet: after every command both stores hold identical items (value, flags, expiry) with isomorphic CAS relations; errors identical apart from the opcode, quiet success and quiet get miss silent, quiet hit carries the same payload. TCP part: each clock-free segment of a toggled history is one write (its requests are pipelined in the server's read buffer); received bytes and final store must equal the in-process run of the same history. A second TCP mode sends the requests one at a time with 45 s of virtual idle time in front of each (below the receive timeout). The alphabet contains an oversized store; the TCP binding adds the tuples <any> <oversized> <any>.",
    note=SEQ_NOTE),
  "C20": dict(engine="cfg", cat="exploration", ref="§4 C20, §2.6",
    technique="exhaustive configuration-grid enumeration: one real memcrsd process (built from /repo, hooks off) per CLI configuration, identical programs, transcript comparison",
-   text="Grid runtime-type x threads {1,2,8} x eviction x port x max-item-size x connection-limit (quick: covering subset of 8, thorough: all 96): byte-identical transcripts of the C01/C07 spanning-tree programs across configurations and agreement with the in-process run, item-size and connection limits enforced as configured (8 x limit simultaneous connections), a 1500-item population read back and flushed, one real-time TTL probe per configuration (ttl 4: hit at 0 s and 2.3 s, miss at 5.6 s). Second part: in-process differential BFS, eviction policy none vs random with an unreachable limit, every history of the C01 alphabet (incl. rejected CAS stores) to depth 5-6: byte-identical responses and equal stores. Connections ending in quit, quitq and a plain close precede the connection-limit probe.",
+   text="Grid runtime-type x threads {1,2,8} x eviction x port x max-item-size x connection-limit (quick: covering subset of 8, thorough: all 96): byte-identical transcripts of the C01/C07 spanning-tree programs across configurations and agreement with the in-process run, item-size and connection limits enforced as configured (8 x limit simultaneous connections), a 1500-item population read back and flushed, one real-time TTL probe per configuration (ttl 4: hit at 0 s and 2.3 s, miss at 5.6 s). Second part: in-process differential BFS, eviction policy none vs random with an unreachable limit, every history of the C01 alphabet (incl. rejected CAS stores) to depth 5-6: byte-identical responses and equal stores. Connections ending in quit, quitq and a plain close precede the connection-limit probe. The in-process differential runs over the first alphabets of C01, C02, C06, C07 and C08.",
    note="Trusted: timing enters only as patience (5 s for positive, 300 ms for negative expectations); ./run builds the real memcrsd binary from /repo's working tree (verification feature off) into /verif/mc/target/memcrsd and every configuration is that binary with its CLI arguments; `mc serve` (the statements of memcrsd's main) is only the fallback when MEMCRSD_BIN is unset, and the evidence records which one ran."),
 })
 
